@@ -11,6 +11,7 @@ package checks
 import (
 	"encoding/json"
 	"fmt"
+	"net"
 	"net/url"
 	"os"
 	"path/filepath"
@@ -259,6 +260,12 @@ func c10(r *ev.Result, tier string) {
 	r.Evaluations += n
 	r.Distinct += n
 	r.Set("branch_cases", n)
+	/* The client address: a zoned link-local IPv6 client ("fe80::1%eth0")
+	carries a percent sign into every notice about its requests. */
+	nz := c10ZonedClient(r, fdir)
+	r.Evaluations += nz
+	r.Distinct += nz
+	r.Set("zoned_client_address_cases", nz)
 	r.Sample(6, c10Case{Position: "file-path", Text: "%20%25s"})
 	r.Sample(6, c10Case{Position: "c2-param", Text: "%25s%25d"})
 	r.Sample(6, c10Case{Position: "input-id-refused", Text: "%25!"})
@@ -359,6 +366,57 @@ func c10Branches(r *ev.Result, base, fdir string, texts []string) int {
 		c.Close()
 		w.Stop()
 		n++
+	}
+	return n
+}
+
+// c10ZonedClient connects from every link-local IPv6 address of this host
+// (the only client addresses that contain a percent sign) and checks the
+// notices.  Returns the number of requests made (0 if the host has no such
+// address).
+func c10ZonedClient(r *ev.Result, fdir string) int {
+	ifs, _ := net.Interfaces()
+	var zoned []string
+	for _, nif := range ifs {
+		as, _ := nif.Addrs()
+		for _, a := range as {
+			if ipn, ok := a.(*net.IPNet); ok && ipn.IP.IsLinkLocalUnicast() && nil == ipn.IP.To4() {
+				zoned = append(zoned, ipn.IP.String()+"%"+nif.Name)
+			}
+		}
+	}
+	n := 0
+	for _, z := range zoned {
+		w, err := hworld.Start(hworld.Config{Listen: "[::]:0", FDir: fdir})
+		if nil != err {
+			continue
+		}
+		addr := net.JoinHostPort(z, w.Port)
+		reqs := []struct{ pos, raw, marker string }{
+			{"client-address/file", hworld.Get("/zz?q=1", "h"), "File requested: "},
+			{"client-address/script", hworld.Get("/c?c2=x.example", "h"), "Sent script: "},
+			{"client-address/script-error", hworld.Get("/c?c2=%zz", "h"), "Could not determine callback URL: "},
+		}
+		for _, rq := range reqs {
+			c, err := hworld.DialAddr(addr, "")
+			if nil != err {
+				break
+			}
+			c.Do(rq.raw)
+			c.Close()
+			c10Judge(r, c10Case{Position: rq.pos, Text: z}, w.Drain(), "["+z+"]", rq.marker)
+			n++
+		}
+		/* and through the broker: an attach and its closure */
+		if c, err := hworld.DialAddr(addr, ""); nil == err {
+			c.Send(hworld.Get("/i/zoned", "h"))
+			ns, _ := w.WaitNotice(func(cl opshell.CLine) bool { return strings.Contains(cl.Line, "connected: ID") })
+			c.Close()
+			more, _ := w.WaitNotice(func(cl opshell.CLine) bool { return strings.Contains(cl.Line, "Shell is gone") })
+			c10Judge(r, c10Case{Position: "client-address/attach", Text: z}, append(ns, more...), "["+z+"]", "connected: ID")
+			n++
+		}
+		w.Stop()
 	}
 	return n
 }
